@@ -53,7 +53,10 @@ def run(ctx, obs):
             obs.unk('ND-field', q, 'RDMs constructor call', 'no RDMs(...) call found')
     for m in ('subset', 'subsample', 'subsample_pattern', '__getitem__'):
         selection_pairing(ctx, obs, R + 'RDMs.' + m)
+    selection_pairing(ctx, obs, R + 'permute_rdms', self_name='rdms')
     subset_pattern_pairing(ctx, obs)
+    keep_index(ctx, obs)
+    co_permutation(ctx, obs)
     reorder(ctx, obs)
     inplace_scope(ctx, obs)
     for q in (R + 'concat', R + 'RDMs.subsample_pattern', R + 'RDMs.subset_pattern', R + 'RDMs.sort_by',
@@ -233,3 +236,85 @@ def _perm_application(fnode, value: ast.expr, order: str, depth=0):
     if not any(isinstance(n, ast.Name) and n.id == order for n in ast.walk(v)) and not isinstance(v, ast.Name):
         return 'none', f'the stored value does not involve `{order}`: the descriptor keeps the old order'
     return 'unknown', 'not a recognised way of applying the order'
+
+
+def keep_index(ctx, obs, rule='KEEP-INDEX'):
+    """The value-returning selection operations hand the constructor descriptor dicts extracted from the source.  Bootstrap copies of
+    one RDM / condition are recognised by their shared `index` value (fold generators group by it), so after the extraction no
+    entry of such a dict may be overwritten with a regenerated value (a fresh running index splits the copies of a group between
+    training and test).  Only the in-place API (append, sort_by with reindex) and the constructor may renumber."""
+    prog = ctx.prog
+    n = 0
+    for m in ('subset', 'subsample', 'subset_pattern', 'subsample_pattern', '__getitem__'):
+        q = R + 'RDMs.' + m
+        if q not in prog.functions:
+            continue
+        f = prog.func(q)
+        local_dicts = {s.targets[0].id for s in ast.walk(f.node) if isinstance(s, ast.Assign) and isinstance(s.targets[0], ast.Name)
+                       and 'descriptors' in s.targets[0].id}
+        bad = None
+        for s in ast.walk(f.node):
+            if isinstance(s, ast.Assign) and isinstance(s.targets[0], ast.Subscript) and isinstance(s.targets[0].value, ast.Name) \
+                    and s.targets[0].value.id in local_dicts and isinstance(s.targets[0].slice, ast.Constant):
+                v = s.value
+                regenerated = any(isinstance(c, ast.Call) and getattr(c.func, 'id', getattr(c.func, 'attr', '')) in ('range', 'arange')
+                                  for c in ast.walk(v))
+                if regenerated:
+                    bad = s
+        n += 1
+        obs.check(bad is None, rule, q, 'descriptor entries of the result are the selected entries of the source (no renumbering)',
+                  f'`{norm(bad)[:80] if bad is not None else ""}` replaces the extracted `{bad.targets[0].slice.value if bad is not None else ""}` '
+                  f'values by a running number: repeated (bootstrap) copies of one item no longer share a value and are split across folds',
+                  '', where(prog, f, bad if bad is not None else f.node))
+    return n
+
+
+def co_permutation(ctx, obs, rule='COPERM'):
+    """permute_rdms: matrices rows, columns and every label array are gathered with ONE permutation.  The permutation parameter and
+    everything derived from it is typed as a word of the free group (p, p^-1 = arange[argsort(p)], ...); all gathers whose index is
+    such a word must use the same word - mixing p and p^-1 leaves the round trip permute / inverse_permute intact but attaches
+    every label to another condition's values whenever p is not an involution."""
+    from ..rules import order as _order
+    prog = ctx.prog
+    q = R + 'permute_rdms'
+    f = prog.func(q)
+    pname = f.pos_params[1] if len(f.pos_params) > 1 else 'p'
+    r = ctx.dep.result(q)
+    by_node = {id(c.node): c for c in r.calls}
+
+    def resolve(call):
+        cr = by_node.get(id(call))
+        return cr.callees[0] if cr is not None and len(cr.callees) == 1 else None
+    a = _order.OrderAnalysis(prog, f, {}, resolve, seed={pname: _order.T('Perm', ((pname, 1),))})
+    # the `if p is None: p = np.random.permutation(...)` default must not erase the seed: re-seed after every rebinding of p
+    orig_bind = a.bind
+
+    def bind(tgt, t, env):
+        if isinstance(tgt, ast.Name) and tgt.id == pname:
+            env[pname] = _order.T('Perm', ((pname, 1),))
+            return
+        orig_bind(tgt, t, env)
+    a.bind = bind
+    a.run()
+    words = {}
+    for w, node in a.perm_gathers:
+        words.setdefault(w, []).append(node)
+    # extractor calls  subset_descriptor(d, <perm>)
+    for c in ast.walk(f.node):
+        if isinstance(c, ast.Call) and getattr(c.func, 'id', getattr(c.func, 'attr', '')) in ('subset_descriptor', 'extract_dict') \
+                and len(c.args) >= 2 and isinstance(c.args[1], ast.Name):
+            t = a.final_env.get(c.args[1].id)
+            if t is not None and t.kind == 'Perm':
+                words.setdefault(t.o, []).append(c)
+    con = 'rows, columns and all labels are gathered with one and the same permutation'
+    if not words:
+        obs.unk(rule, q, con, 'no gather by the permutation recognised', where(prog, f, f.node))
+        return
+    if len(words) == 1:
+        obs.ok(rule, q, con, f'{sum(len(v) for v in words.values())} gathers by {_order.wname(next(iter(words)))}', where(prog, f, f.node))
+    else:
+        major = max(words, key=lambda w: len(words[w]))
+        for w, nodes in words.items():
+            if w != major:
+                obs.bad(rule, q, con, f'`{norm(nodes[0])[:70]}` gathers with {_order.wname(w)} while {len(words[major])} other gathers use '
+                        f'{_order.wname(major)}: labels and values are permuted differently', where(prog, f, nodes[0]))
